@@ -150,6 +150,7 @@ package keyed
 //@   opt frame = skip
 //@   requires k != nil
 //@   loop 1 invariant inv: true
+//@   loop 1 invariant chain: forall key: any {k.routines[key]} :: in(k.routines, key) ==> k.routines[key].exitedCh == rlast(k.routines[key]) || (k.routines[key].exitedCh == nil && (rlast(k.routines[key]) == nil || closed(rlast(k.routines[key]))))
 //
 //@ func (*Keyed).ResetRoutine
 //@   props C07 C13
@@ -161,6 +162,7 @@ package keyed
 //@   opt holds = mtx
 //@   opt frame = skip
 //@   requires k != nil
+//@   loop 1 invariant chain: forall key: any {k.routines[key]} :: in(k.routines, key) ==> k.routines[key].exitedCh == rlast(k.routines[key]) || (k.routines[key].exitedCh == nil && (rlast(k.routines[key]) == nil || closed(rlast(k.routines[key]))))
 //@   opt inline-calls = start
 //@   ghost aftercall newRunningRoutine: rlast(ret) := rlast(csold(k.routines[key]))
 //@   loop 1 invariant inv: true
